@@ -17,16 +17,16 @@ func init() {
 	})
 	registerScenario("hsrace", func(bz json.RawMessage) (engine.Scenario, error) { return HandshakeRace{}, nil })
 	register("C17", func(tier string) CheckSpec {
-		depth, budget := 4, 280*time.Second
+		depth, budget, hsDepth := 4, 280*time.Second, 8
 		if tier == "thorough" {
-			depth, budget = 5, 20*time.Minute
+			depth, budget, hsDepth = 5, 20*time.Minute, 10
 		}
 		return CheckSpec{Level: "model_checking", Rule: searchRule + "; the alphabet contains the full grid of handshake parameters (7 hop choices x ordering x port x counterparty port x version on the provider, 3 x 2 x 2 x 2 on the consumer), so every combination is attempted in every reached state", Assumptions: append([]string{
 			"handshake unit (parameter grid): the application callbacks are called the way core calls them, with arbitrary parameter combinations core itself would partly refuse earlier, and the channel ends are written by the harness on acceptance",
 			"hsrace unit: every handshake step is a real core message (MsgChannelOpenInit/Try/Ack/Confirm) handled by ibc-go's message server on both chains, racing relayers included; Merkle proofs are answered by the proof oracle (look-up in the counterparty's actual store)",
 			"the late-open vscrelay unit additionally runs the well-formed connection and channel handshakes end to end on both chains through the same core messages",
 		}, commonAssumptions...), Budget: budget,
-			Units: []Unit{Search{Sc: Handshake{Variant: "base"}, Depth: depth}, Search{Sc: HandshakeRace{}, Depth: depth + 4}, Search{Sc: VSCRelay{Variant: "late", Epoch: 1, Delay: 1, Two: true}, Depth: 3}},
+			Units: []Unit{Search{Sc: Handshake{Variant: "base"}, Depth: depth}, Search{Sc: HandshakeRace{}, Depth: hsDepth}, Search{Sc: VSCRelay{Variant: "late", Epoch: 1, Delay: 1, Two: true}, Depth: 3}},
 			MustSee: []string{"try:want=true,accepted=true", "try:want=false,accepted=false", "confirm:want=true,accepted=true", "confirm:want=false,accepted=false",
 				"consumer-init:want=true,accepted=true", "consumer-init:want=false,accepted=false", "provider-init:accepted=false",
 				"core-try:want=true,accepted=true", "core-try:want=false,accepted=false", "core-ack:want=true,accepted=true", "core-ack:want=false,accepted=false",
